@@ -7,6 +7,7 @@ from sktime.forecasting.compose._ensemble import EnsembleForecaster
 from sktime.forecasting.model_selection import SlidingWindowSplitter
 from sktime.utils.validation.forecasting import check_cv
 from sktime.utils.validation.forecasting import check_y
+from sktime.utils.validation.forecasting import check_y_X
 
 
 class OnlineEnsembleForecaster(EnsembleForecaster):
@@ -86,10 +87,14 @@ class OnlineEnsembleForecaster(EnsembleForecaster):
         self : an instance of self
         """
         self.check_is_fitted()
-        self._update_y_X(y, X)
+        y, X = check_y_X(y, X, allow_empty=True)
 
+        # the weights are learnt from the forecasts the members make for the new
+        # observations, i.e. before these are revealed and the cutoffs move on
         if len(y) >= 1 and self.ensemble_algorithm is not None:
             self._fit_ensemble(y, X)
+
+        self._update_y_X(y, X)
 
         for forecaster in self.forecasters_:
             forecaster.update(y, X, update_params=update_params)
